@@ -26,6 +26,18 @@ Decided (static, from /repo's current source):
                delegate that obeys the same rule), unless `error` is known to be NULL on that path.
   R-NULLGUARD  direct writes into `error` are dominated by a null test (advisory: an unguarded site is reported as
                NOTE, it concerns the argument contract, not the document).
+  R-ATTR-BOUND / R-FORMAT  ReadAttr lengths against fixed-extent destinations; mjXError formats are literals.
+  R-INPUT-BOUND (sa/r_inbound.py) census, by pattern, of every loop of src/xml whose exits depend on input text (stream
+               extraction, container size, C-string scan, sibling elements) and that stores through a counter it advances
+               (`dst[n++] = v`, a callback called with the counter), plus the input-sized bulk copies.  Each store must be
+               bounded on every path by (a) a guard relating the index to a size expression (forward data-flow of linear
+               relations over the function, early exits nested, facts killed by assignments), or (b) the uniqueness
+               argument: counter starts at 0, one advance per storing iteration, token tested absent from a set that only
+               grows and inserted into it in the same iteration, token confined to a finite table (result of a
+               finite-table lookup -- recognised by role -- tested against its not-found value).  R-INPUT-BOUND-CALL: the
+               buffer each caller passes (array extent, std::vector(n), std::array<T,N>, the callback's destination) is at
+               least the bound the callee relies on; a site whose buffer cannot be related to the size argument is
+               ANALYSIS-ERROR.  Self-growing destinations (push_back, +=) need no bound.
 Not decided: crash freedom of tinyxml2 and of the compiler on arbitrary bytes; accept/reject decisions of the schema
 automaton; exceptions of the standard library that depend on index preconditions (.at/.substr) or allocation failure;
 fatal mju_error calls; value-dependent infeasibility of a throw (R-CATCH is a may-analysis: a report names the
@@ -37,7 +49,7 @@ import os
 import re
 import subprocess
 
-from .. import cfront, cir, ctypeinfo, cxx3, paths
+from .. import cfront, cir, ctypeinfo, cxx3, paths, r_inbound
 from ..cfront import AnalysisError
 
 READ_TABLE = "src/xml/generated/mjcf_read_table.inc"
@@ -1274,6 +1286,13 @@ def format_rule(res):
         raise AnalysisError(f"only {n} mjXError constructions found")
 
 
+def input_bound_rule(res, model):
+    """R-INPUT-BOUND / R-INPUT-BOUND-CALL (see sa/r_inbound.py): on the pinned tree six stores (MapValues keyword list,
+    composite curve, cube-file slots, the numeric reader's callback, two input-sized copies) and the call sites of the two
+    pointer / callback destinations."""
+    r_inbound.run_rule(res, model.index.fns, [model.irs[t] for t in model.tus] + [model.probe], floor=6, floor_sites=4)
+
+
 def run(res, tier):
     model = Model(cfront.REPO)
     res.count("tus", len(model.tus))
@@ -1283,6 +1302,7 @@ def run(res, tier):
     errmsg_rule(res, model)
     attr_bound_rule(res)
     format_rule(res)
+    input_bound_rule(res, model)
     res.explanation = (
         "Static analysis of the XML loading path from clang's typed AST of all src/xml and src/user translation units "
         "and from the generated attribute tables parsed as data. R-LAYOUT: every generated mjXAttr row is checked "
@@ -1292,12 +1312,18 @@ def run(res, tier):
         "exploration of the canonical view of mjXReader::Parse (lambdas, TU helpers and members called on this "
         "expanded in place; throw ends a path; every written element-parser call must have been walked). R-CATCH: interprocedural exception-type flow (throw "
         "sites, try/catch filtering, rethrow, exception_ptr, virtual dispatch through the class table) to the "
-        "extern \"C\" boundary. R-ERRMSG: all-paths rule over the parse chain with null-correlated predicates.")
+        "extern \"C\" boundary. R-ERRMSG: all-paths rule over the parse chain with null-correlated predicates. "
+        "R-INPUT-BOUND: pattern census of input-controlled store loops and input-sized copies in src/xml; forward "
+        "data-flow of linear relations / set-membership / table-membership facts over each function; every such store "
+        "needs a size guard or the uniqueness argument, and the callers' buffers are compared with the bound "
+        "(census in coverage: input_bound_census).")
     res.not_decided = (
         "crash freedom of tinyxml2 and of the model compiler on arbitrary bytes; the accept/reject decisions of the "
         "schema automaton; standard-library exceptions that depend on index preconditions (.at/.substr) or allocation "
         "failure; fatal mju_error calls outside the compiler's setjmp window; value-dependent infeasibility of a "
-        "throw (R-CATCH is a may-analysis over types).")
+        "throw (R-CATCH is a may-analysis over types). R-INPUT-BOUND: negative indices; stores whose index is not "
+        "a counter carried by an input-controlled loop (plain counted loops over a parameter); pointer-destination call "
+        "sites of input-sized bulk copies (left to R-ATTR-BOUND / R-LAYOUT); loops in src/user reached from the reader.")
     res.assumptions = [
         "callbacks reached through function pointers (plugins, resource providers, decoders) do not throw",
         "tinyxml2 and libc do not throw",
@@ -1430,6 +1456,80 @@ MUTANTS.append({
                "    return nullptr;\n  }\n\n  // errors raised by the spec/compiler layer while the document is built\n"
                "  catch (mjCError err) {\n    mjCopyError(error, err.message, nerror);\n    mj_deleteSpec(spec);\n"
                "    return nullptr;\n  }\n\n  return spec;\n}")]})
+
+# ---- R-INPUT-BOUND: the stored seed (duplicate rejection dropped), the other legs of the uniqueness argument, guards
+# weakened by one, and behaviour-preserving reshapes of the same code.  Copies of the keyword-list reader under other names
+# share a scratch tree with the edits of the real one: the rule finds them by pattern, not by name.
+_UT = "src/xml/xml_util.cc"
+_DUP = ("    if (found_keys.count(key)) {\n      throw mjXError(elem, \"duplicate keyword: '%s'\");\n      return 0;\n    }\n\n")
+_REJ = ("    if (value == -1) {\n      throw mjXError(elem, \"invalid keyword: '%s'\");\n      return 0;\n    }\n\n")
+_INS = "    found_keys.insert(key);\n"
+_ANCHOR = "//---------------------------------- write functions -----------------------------------------------\n"
+
+
+def _clone(name, body, caller=False):
+    """A free-standing copy of the keyword-list reader (pattern-found, not name-found), optionally with a caller."""
+    txt = ("static int %s(XMLElement* elem, const std::string& text, int* data, const mjMap* map, int mapSz) {\n"
+           "  std::istringstream strm(text);\n  std::string key;\n  std::set<std::string> found_keys;\n  int count = 0;\n"
+           "%s  return count;\n}\n\n") % (name, body)
+    if caller:
+        txt += ("int %sUser(XMLElement* elem, const std::string& text) {\n"
+                "  static const mjMap tbl[2] = {{\"a\", 0}, {\"b\", 1}};\n  int bits[2];\n"
+                "  return %s(elem, text, bits, tbl, 2);\n}\n\n") % (name, name)
+    return (_UT, _ANCHOR, txt + _ANCHOR)
+
+
+_LOOP_HEAD = "  while (strm >> key) {\n"
+_LOOKUP = "    int value = mjXUtil::FindKey(map, mapSz, key);\n"
+_REJ2 = "    if (value == -1) {\n      throw mjXError(elem, \"invalid keyword\");\n    }\n"
+_DUP2 = "    if (found_keys.count(key)) {\n      throw mjXError(elem, \"duplicate keyword\");\n    }\n"
+
+MUTANTS += [
+    # ---- must fire
+    {"id": "mapvalues-duplicate-test-dropped", "group": "A", "expect": ("R-INPUT-BOUND", "mjXUtil::MapValues:data:input-bounded-store"),
+     "edits": [(_UT, _DUP, ""), (_UT, _INS, "")]},
+    {"id": "keylist-insert-dropped", "group": "A", "expect": ("R-INPUT-BOUND", "KeyListNoInsert:data:input-bounded-store"),
+     "edits": [_clone("KeyListNoInsert", _LOOP_HEAD + _DUP2 + _LOOKUP + _REJ2 + "    data[count++] = value;\n  }\n")]},
+    {"id": "keylist-guard-off-by-one", "group": "A", "expect": ("R-INPUT-BOUND-CALL", "KeyListWeakGuardUser->KeyListWeakGuard:data:extent"),
+     "edits": [_clone("KeyListWeakGuard", _LOOP_HEAD + _LOOKUP + _REJ2 +
+                      "    if (count > mapSz) {\n      throw mjXError(elem, \"too many keywords\");\n    }\n"
+                      "    data[count++] = value;\n  }\n", caller=True)]},
+    {"id": "mapvalues-unknown-keyword-accepted", "group": "B", "expect": ("R-INPUT-BOUND", "mjXUtil::MapValues:data:input-bounded-store"),
+     "edits": [(_UT, _REJ, "")]},
+    # ---- controls
+    {"id": "mapvalues-insert-second", "group": "C", "expect": None,
+     "edits": [(_UT, _DUP, ""), (_UT, _INS, ""),
+               (_UT, "    int value = FindKey(map, mapSz, key);\n    if (value == -1) {",
+                "    if (!found_keys.insert(key).second) {\n      throw mjXError(elem, \"duplicate keyword: '%s'\");\n    }\n\n"
+                "    int value = FindKey(map, mapSz, key);\n    if (value == -1) {")]},
+    {"id": "keylist-presplit-tokens", "group": "C", "expect": None,
+     "edits": [_clone("KeyListPresplit",
+                      "  std::vector<std::string> tokens;\n  while (strm >> key) {\n    tokens.push_back(key);\n  }\n"
+                      "  for (const std::string& tok : tokens) {\n"
+                      "    if (found_keys.find(tok) != found_keys.end()) {\n      throw mjXError(elem, \"duplicate keyword\");\n    }\n"
+                      "    const int value = mjXUtil::FindKey(map, mapSz, tok);\n"
+                      "    if (value < 0) {\n      throw mjXError(elem, \"invalid keyword\");\n    }\n"
+                      "    found_keys.insert(tok);\n    data[count] = value;\n    count++;\n  }\n", caller=True)]},
+    {"id": "mapvalues-explicit-guard", "group": "D", "expect": None,
+     "edits": [(_UT, _DUP, "    if (count >= mapSz) {\n      throw mjXError(elem, \"too many keywords\");\n    }\n\n"),
+               (_UT, _INS, "")]},
+]
+
+MUTANTS += [
+    {"id": "curve-guard-off-by-one", "group": "A", "expect": ("R-INPUT-BOUND", "mjXReader::OneComposite:comp.curve:input-bounded-store"),
+     "edits": [(_RD, "    if (i > 2) {\n      throw mjXError(elem, \"The curve array must have", "    if (i > 3) {\n      throw mjXError(elem, \"The curve array must have")]},
+    {"id": "readattr-too-much-data-unchecked", "group": "A", "expect": ("R-INPUT-BOUND", "mjXUtil::ReadAttr:data:input-bounded-copy"),
+     "edits": [(_UT, "  if (maybe_vec->size() > len) {\n    throw mjXError(elem, \"attribute '%s' has too much data\", attr);\n  }\n", "")]},
+    {"id": "readattrvalues-bound-inclusive", "group": "B", "expect": ("R-INPUT-BOUND-CALL", "mjXUtil::ReadAttrArr->ReadAttrValues:push():extent"),
+     "edits": [(_UT, "(max < 0 || i < max) && !strm.eof()", "(max < 0 || i <= max) && !strm.eof()")]},
+    {"id": "keylist-set-cleared", "group": "B", "expect": ("R-INPUT-BOUND", "KeyListCleared:data:input-bounded-store"),
+     "edits": [_clone("KeyListCleared", _LOOP_HEAD + _DUP2 + _LOOKUP + _REJ2 +
+                      "    if (found_keys.size() > 1) {\n      found_keys.clear();\n    }\n"
+                      "    found_keys.insert(key);\n    data[count++] = value;\n  }\n")]},
+    {"id": "keylist-token-changed-after-test", "group": "B", "expect": ("R-INPUT-BOUND", "KeyListRetoken:data:input-bounded-store"),
+     "edits": [_clone("KeyListRetoken", _LOOP_HEAD + _DUP2 + "    strm >> key;\n" + _LOOKUP + _REJ2 +
+                      "    found_keys.insert(key);\n    data[count++] = value;\n  }\n")]},
+]
 
 
 def selftest(res):
